@@ -81,3 +81,42 @@ package ply
 //@     invariant len(buf) == 13 && fresh(buf)
 //@     invariant indices != nil && indices.data == model.indices
 //@     invariant written(out) == old(written(out)) + 13 * (i / 3)
+
+// ---- C04: binary vertex property records ------------------------------------------------------------
+// A built 3-vector writer emits, for vertex i, one record of exactly three scalars of its declared type.
+
+//@ func builtVector1PropertyWriter.Write
+//@   props C04
+//@   modifies bvpw.buf, ghost written
+//@   requires bvpw.arr != nil && 0 <= i && i < len(bvpw.arr.data)
+//@   requires binary_scalar_types: bvpw.format == UChar || bvpw.format == Int || bvpw.format == Float || bvpw.format == Double
+//@   requires buffer_is_one_record: len(bvpw.buf) == 1 * bvpw.format.Size()
+//@   returns err
+//@   ensures record_size: err == nil ==> written(out) == old(written(out)) + 1 * bvpw.format.Size()
+
+//@ func builtVector2PropertyWriter.Write
+//@   props C04
+//@   modifies bv3pw.buf, ghost written
+//@   requires bv3pw.arr != nil && 0 <= i && i < len(bv3pw.arr.data)
+//@   requires binary_scalar_types: bv3pw.format == UChar || bv3pw.format == Int || bv3pw.format == Float || bv3pw.format == Double
+//@   requires buffer_is_one_record: len(bv3pw.buf) == 2 * bv3pw.format.Size()
+//@   returns err
+//@   ensures record_size: err == nil ==> written(out) == old(written(out)) + 2 * bv3pw.format.Size()
+
+//@ func builtVector3PropertyWriter.Write
+//@   props C04
+//@   modifies bv3pw.buf, ghost written
+//@   requires bv3pw.arr != nil && 0 <= i && i < len(bv3pw.arr.data)
+//@   requires binary_scalar_types: bv3pw.format == UChar || bv3pw.format == Int || bv3pw.format == Float || bv3pw.format == Double
+//@   requires buffer_is_one_record: len(bv3pw.buf) == 3 * bv3pw.format.Size()
+//@   returns err
+//@   ensures record_size: err == nil ==> written(out) == old(written(out)) + 3 * bv3pw.format.Size()
+
+//@ func binaryVector4PropertyWriter.Write
+//@   props C04
+//@   modifies bv4pw.buf, ghost written
+//@   requires bv4pw.arr != nil && 0 <= i && i < len(bv4pw.arr.data)
+//@   requires binary_scalar_types: bv4pw.format == UChar || bv4pw.format == Int || bv4pw.format == Float || bv4pw.format == Double
+//@   requires buffer_is_one_record: len(bv4pw.buf) == 4 * bv4pw.format.Size()
+//@   returns err
+//@   ensures record_size: err == nil ==> written(out) == old(written(out)) + 4 * bv4pw.format.Size()
